@@ -319,10 +319,10 @@ Section Equiv.
     Theorem unmarshal_core_teq a b : teq a b -> core a = core b.
     Proof.
       intros H. unfold unmarshal_core. pose proof (teq_as_iri a b H) as Ei.
-      pose proof (load_item_teq 64%nat a b H) as El.
+      pose proof (load_item_teq json_dec_fuel a b H) as El.
       destruct H as [r1 r2 E|t| | | |l1 l2 E|kvs1 kvs2 E]; try reflexivity.
       - rewrite Ei. reflexivity.
-      - unfold items_fn. rewrite (items_go_teq _ (load_item_teq 64%nat) l1 l2 E). reflexivity.
+      - unfold items_fn. rewrite (items_go_teq _ (load_item_teq json_dec_fuel) l1 l2 E). reflexivity.
       - exact El.
     Qed.
 
